@@ -292,6 +292,8 @@ def run(ctx: Ctx):
                     ctx.violation(f"{name}-bounds-not-rejected", f"{name}{(a, b, c, d)} on {n}x{m}: {o[:60]}, expected IndexError", inp)
     ctx.correspond("iter_rows/iter_cols: all (min,max) from {None,-1,0,1,last,last+1} on both axes, 3 table sizes", req, out, exhaustive=True, translated=True)
 
+    iter_after_edits(ctx)
+
     if not ctx.quick:
         # growth to the documented row limit (one single-column table)
         from numbers_parser import Document
@@ -302,6 +304,88 @@ def run(ctx: Ctx):
         ctx.correspond("growth to the row limit", ["addr write 1 1 r 999999 0"], [o], exhaustive=True)
         if o != "ok 1000000 1 999999 0":
             ctx.violation("growth-to-limit", f"write(999999,0) on 1x1: {o}", {"rows": 1, "cols": 1, "method": "write", "pos": ["r", 999999, 0]})
+
+
+def iter_after_edits(ctx: Ctx):
+    """row and column iteration interleaved with edits of the same table (writes in both notations inside the table and
+    beyond its edge, merges, structural edits): after every step both iterators must visit exactly the cells `cell(r, c)`
+    returns for the addressed rectangle - the same objects, in order - and the same values with values_only."""
+    from numbers_parser import Document
+    rng = ctx.rng
+    n_scripts = 40 if ctx.quick else 600
+    for k in range(n_scripts):
+        n, m = rng.randrange(2, 7), rng.randrange(2, 6)
+        doc = Document(num_rows=n, num_cols=m, num_header_rows=0, num_header_cols=0)
+        tb = doc.sheets[0].tables[0]
+        for r in range(n):
+            for c in range(m):
+                tb.write(r, c, f"r{r}c{c}")
+        script = []
+
+        def check(step):
+            nr, nc = tb.num_rows, tb.num_cols
+            lo_r, hi_r = sorted((rng.randrange(nr), rng.randrange(nr)))
+            lo_c, hi_c = sorted((rng.randrange(nc), rng.randrange(nc)))
+            for full in (True, False):
+                kw = {} if full else {"min_row": lo_r, "max_row": hi_r, "min_col": lo_c, "max_col": hi_c}
+                a, b, c, d = (0, nr - 1, 0, nc - 1) if full else (lo_r, hi_r, lo_c, hi_c)
+                for name in ("iter_rows", "iter_cols"):
+                    try:
+                        got = [list(t) for t in getattr(tb, name)(**kw)]
+                        vals = [list(t) for t in getattr(tb, name)(values_only=True, **kw)]
+                    except Exception as e:  # noqa: BLE001
+                        ctx.violation(f"{name.replace('_', '')}-raises-after-edit", f"{name}({kw}) after {script}: {exc_name(e)}: {e}",
+                                      {"rows": n, "cols": m, "script": script, "iter": name})
+                        return False
+                    if name == "iter_rows":
+                        want = [[tb.cell(r, cc) for cc in range(c, d + 1)] for r in range(a, b + 1)]
+                    else:
+                        want = [[tb.cell(r, cc) for r in range(a, b + 1)] for cc in range(c, d + 1)]
+                    same = len(got) == len(want) and all(len(g) == len(w) and all(x is y for x, y in zip(g, w)) for g, w in zip(got, want))
+                    same_v = vals == [[x.value for x in w] for w in want]
+                    ctx.count("iteration interleaved with edits: cells visited vs cell(r, c) of the addressed rectangle", 1)
+                    if not (same and same_v):
+                        bad = [(x.row, x.col, x.value, y.value) for g, w in zip(got, want) for x, y in zip(g, w) if x is not y][:3]
+                        ctx.violation(f"{name.replace('_', '')}-visits-other-cells",
+                                      f"{name}({kw}) after {script[-3:]} on {nr}x{nc}: visited cells are not the cells of the "
+                                      f"rectangle (row, col, visited value, cell(r,c).value) {bad}"
+                                      + ("" if same_v else "; values_only differs too"),
+                                      {"rows": n, "cols": m, "script": script, "iter": name})
+                        return False
+            return True
+        if not check(0):
+            continue
+        for step in range(rng.randrange(2, 7)):
+            x = rng.random()
+            nr, nc = tb.num_rows, tb.num_cols
+            r, c = rng.randrange(nr), rng.randrange(nc)
+            if x < 0.45:
+                v = rng.choice([f"new{step}", step + 0.5, True])
+                if rng.random() < 0.5:
+                    tb.write(r, c, v)
+                    script.append(["write", r, c, str(v)])
+                else:
+                    ref = a1_spellings(r, c)[0]
+                    tb.write(ref, v)
+                    script.append(["write", ref, str(v)])
+            elif x < 0.55:
+                tb.write(nr + rng.randrange(0, 2), c, "grow")
+                script.append(["write-beyond", nr, c])
+            elif x < 0.7 and r + 1 < nr and not any(cell.is_merged or type(cell).__name__ == "MergedCell" for row in tb.rows() for cell in row):
+                tb.merge_cells(f"{a1_spellings(r, c)[0]}:{a1_spellings(r + 1, c)[0]}")
+                script.append(["merge", r, c, r + 1, c])
+            elif x < 0.8:
+                tb.add_row(1, start_row=r)
+                script.append(["add_row", r])
+            elif x < 0.9:
+                tb.add_column(1, start_col=c)
+                script.append(["add_column", c])
+            elif nr > 2:
+                tb.delete_row(1, start_row=r)
+                script.append(["delete_row", r])
+            if not check(step + 1):
+                break
+            ctx.mark(("iter-after-edits", k, step))
 
 
 def _pmap(fn, tasks):
